@@ -15,7 +15,7 @@ use std::collections::HashMap;
 use std::sync::Arc;
 
 struct ReqSocketBackend {
-    pub(crate) peers: scc::HashMap<PeerIdentity, Peer>,
+    pub(crate) peers: Arc<scc::HashMap<PeerIdentity, Peer>>,
     pub(crate) round_robin: SegQueue<PeerIdentity>,
     socket_monitor: Mutex<Option<mpsc::Sender<SocketEvent>>>,
     socket_options: SocketOptions,
@@ -127,7 +127,7 @@ impl Socket for ReqSocket {
     fn with_options(options: SocketOptions) -> Self {
         Self {
             backend: Arc::new(ReqSocketBackend {
-                peers: scc::HashMap::new(),
+                peers: Arc::new(scc::HashMap::new()),
                 round_robin: SegQueue::new(),
                 socket_monitor: Mutex::new(None),
                 socket_options: options,
@@ -176,7 +176,7 @@ impl MultiPeerBackend for ReqSocketBackend {
     }
 
     fn peer_disconnected(&self, peer_id: &PeerIdentity) {
-        self.peers.remove_sync(peer_id);
+        crate::util::remove_peer_entry(&self.peers, peer_id);
         // Take the peer's slot out of the rotation as well: a stale id left behind
         // would give the peer two slots if it reconnects under the same identity.
         for _ in 0..self.round_robin.len() {
